@@ -91,7 +91,7 @@ CLAIMS = {
          "scaling and projections both requested, lower-bound check of the sweep budget (parameter table range + every max_iter argument)",
          "Static decision that with projections every x handed to objfun (x0 included) is the unmodified output of a Dykstra call whose last projector clamps against copies of "
          "the user's bounds; that the projection list is a fresh list with the box appended once after all user projectors and never mutated afterwards; that scaling is None "
-         "whenever projections are given; that every Dykstra call performs at least one sweep (max_iter >= 1 at each call site); the point handed to a user projector is never read again (C09-3c). The sqrt(p*tol) distance bound itself is numerical (its premises are C15-3/4).",
+         "whenever projections are given; that every Dykstra call performs at least one sweep (max_iter >= 1 at each call site); the point handed to a user projector is never read again (C09-3c); Dykstra stops only after the last set of a sweep (C09-3d). The sqrt(p*tol) distance bound itself is numerical (its premises are C15-3/4).",
          "Trusted: dykstra summary (result = last projector's output, C15-2); at least one sweep runs.",
          "DESIGN.md 4/C09"),
  "C11": ("must-pass-through queries pairing the Jacobian assignment with the label snapshot, value-flow alias query (no .copy()-free path from Model.eval_num to the stored labels), "
@@ -108,14 +108,14 @@ CLAIMS = {
          "upper-bound handling of trsbox/alt_trust_step/d_within_bounds are exact reflections of each other (x -> -x); and every loop of "
          "the sub-problem routines is a for over a range fixed before the loop with no recursion (the routine returns for every input); a work vector written only under the active-set mask has its "
          "off-mask entries defined again between every change of the mask and its next whole use; and gnew - H d == g is an inductive consequence of the statements of trsbox/alt_trust_step over the reals "
-         "(every update of d is paired with H times the same increment in gnew; hred stays H times the reduced step), up to the final clipping. Norm bound, model decrease and Cauchy decrease "
+         "(every update of d is paired with H times the same increment in gnew; hred stays H times the reduced step), up to the final clipping; the index found by a scanning loop (iact, isav, idx_hit) is reset on every path back into the scan. Norm bound, model decrease and Cauchy decrease "
          "are numerical and NOT decided; the optional Fortran back end is outside the analysed source.",
          "Trusted: CPython ast; CFG; real arithmetic (rounding is not modelled); d_within_bounds treated as the identity for the gradient relation (its own clause is C12-1).",
          "DESIGN.md 4/C12, 9.5"),
  "C13": ("definition/mutation inventory of the projector list in each ctrsbox_* routine, dominator queries in Controller.trust_region_step, frame interpretation of the step routines (model_value callback frame included), loop-form lint, reflection equivariance of trsbox_linear's bound handling",
          "Static decision that the trust-region ball pball(., centre, radius) of the routine's own centre/radius is the last set handed to Dykstra over a fresh copy of the caller's "
          "list; that every regularised step passes `pred_reduction < 0 => d = 0` with pred_reduction computed from the returned (gopt, H, d); frame agreement at all arithmetic/clamp/"
-         "dykstra sites of the step routines; the geometry point is centre + an output of the box solver over the box relative to the centre, and it is the candidate with the larger |c + g.s| of one computed for +g and one for -g (both compared before either is returned); totality. Box to 1e-12, global optimality to 1e-6 and ||d|| <= Delta(1+1e-8) are numerical and NOT decided.",
+         "dykstra sites of the step routines; the geometry point is centre + an output of the box solver over the box relative to the centre, and it is the candidate with the larger |c + g.s| of one computed for +g and one for -g (both compared before either is returned); no step routine modifies an array argument in place; totality. Box to 1e-12, global optimality to 1e-6 and ||d|| <= Delta(1+1e-8) are numerical and NOT decided.",
          "Trusted: dykstra summary (C15-2); CPython ast.",
          "DESIGN.md 4/C13"),
  "C14": ("symbolic comparison of allocation/return shapes and a must-pass-through/last-write check of the clamp loop in both random-direction generators, "
@@ -129,7 +129,7 @@ CLAIMS = {
          "inner iteration over affine normal forms",
          "Static decision that dykstra performs at most max_iter sweeps, that its result is exactly the last projector's output, and of the two premises of the sqrt(p*tol) feasibility "
          "bound (the stopping quantity sums the squared change of every correction vector of the sweep; each sub-step moves x by exactly the change of its correction vector; the loop "
-         "tests the caller's tol / max_iter, which are never re-assigned), that pbox is an exact two-sided clamp of its arguments, and that the value handed to a projector is not reused after the call (a projector may modify its argument). "
+         "tests the caller's tol / max_iter, which are never re-assigned), that every projector call sits in a loop over all sets so that the routine stops only after the last set of a sweep, that pbox is an exact two-sided clamp of its arguments, and that the value handed to a projector is not reused after the call (a projector may modify its argument). "
          "Distances and 1e-3 optimality are numerical and NOT decided.",
          "Trusted: CPython ast; integer-coefficient affine arithmetic of dfv/affine.py.",
          "DESIGN.md 4/C15"),
@@ -137,7 +137,7 @@ CLAIMS = {
          "ownership inventory, affine normal forms for shift_base, re-basing check of live relative locals at shift_base call sites",
          "Static decision that every mutation of what the cached factorisation depends on clears factorisation_current on every path, that only factorise_geom_system validates the cache "
          "after recomputing Q, R, that no Model field is written outside the class, that no stored array is modified in place through a local it is a view of, that shift_base is an "
-         "affine no-op for model values and the assembled model, and that both parts (constant, gradient) of the fitted model and of every Lagrange polynomial are rows of one solution of the interpolation system, read by the layout the design matrix is written in. "
+         "affine no-op for model values and the assembled model, and that both parts (constant, gradient) of the fitted model and of every Lagrange polynomial are rows of one solution of the interpolation system, read by the layout the design matrix is written in, and that the gradient handed to the step solvers is 2 J'(model_const + J x_opt) with x_opt read when the model is assembled. "
          "Interpolation / least-squares / Lagrange identities are numerical and NOT decided.",
          "Trusted: CPython ast; CFG; np.dot(J, .) is linear.",
          "DESIGN.md 4/C16"),
